@@ -17,6 +17,7 @@
 #include "QXmppUtils_p.h"
 #include "QXmppElement.h"
 #include "QXmppJingleIq.h"
+#include "QXmppMessage.h"
 #include <QCoreApplication>
 #include <QDomDocument>
 #include <QXmlStreamWriter>
@@ -437,6 +438,88 @@ static void replayXmlnsFinding() {
     }
 }
 
+// ------------------------------------------------------------------ which characters round-trip: the hypothesis of the theorems, measured
+// For one code point c: "x" c "y" as attribute value and as text through the real writer and QDom.  XML-legal c must come back
+// (oracle, key C01:text-layer-roundtrip); for the others the outcome is recorded (the property quantifies over XML-legal characters only).
+static void sweepCodePoint(uint c) {
+    QString s = fromCps({ 'x', c, 'y' });
+    QByteArray b; { QXmlStreamWriter w(&b); w.writeStartElement(u"a"_qs); w.writeAttribute(u"k"_qs, s); w.writeCharacters(s); w.writeEndElement(); }
+    QDomDocument d; bool ok = d.setContent(b, true);
+    QString av = ok ? d.documentElement().attribute(u"k"_qs) : QString(), tv = ok ? d.documentElement().text() : QString();
+    Nd root; root.name = u"a"_qs; root.attrs.emplace_back(u"k"_qs, s); Nd t; t.text = true; t.txt = s; root.kids.push_back(t);
+    std::string enc = encRaw(root);
+    corr("xml-render " + enc, hexB(b)); corr("xml-render-parse " + enc, canonOfXml(b));
+    if (xmlLegal(c)) {
+        stat("sweep.legal");
+        if (!ok || av != s || tv != s) oracleFail("C01:text-layer-roundtrip", "code point U+" + QString::number(c, 16).toStdString() + " wrote=" + b.toPercentEncoding(" <>&;#\"=/").toStdString());
+        else oraclePass()++;
+    } else {
+        stat("sweep.illegal");
+        if (ok && av == u"xy" && tv == u"xy") stat("sweep.illegal.dropped_silently_document_still_parses");
+        else if (!ok) stat("sweep.illegal.document_unparseable");
+        else if (av == s && tv == s) stat("sweep.illegal.round_trips");
+        else stat("sweep.illegal.changed_otherwise");
+    }
+}
+
+// ------------------------------------------------------------------ measurements on the real QXmppMessage / QXmppElement (recorded, not judged here:
+// blank text, XML-illegal characters and names are outside the property's quantifier; the coordinator passes the results to the codec tier)
+static void measureMessageFields() {
+    auto viaXml = [](const QXmppMessage &m, QByteArray &xml, bool &parsed) {
+        xml.clear(); { QXmlStreamWriter w(&xml); m.toXml(&w); }
+        QDomDocument d; parsed = d.setContent(xml, true);
+        QXmppMessage r; if (parsed) r.parse(d.documentElement());
+        return r; };
+    auto show = [](const QString &v) { return v.isNull() ? std::string("<null>") : "'" + v.toUtf8().toPercentEncoding(" ").toStdString() + "'"; };
+    struct Case { const char *name; QString body; bool setIt; };
+    QString lone; lone += u'a'; lone += QChar(0xD800); lone += u'b';
+    std::vector<Case> cases = { { "body_space", u" "_qs, true }, { "body_newline", u"\n"_qs, true }, { "body_ctrl_01", fromCps({ 'a', 1, 'b' }), true },
+        { "body_lone_surrogate", lone, true }, { "body_fffe", fromCps({ 'a', 0xFFFE, 'b' }), true }, { "body_tab_cr", u"\t\r"_qs, true }, { "body_nbsp", fromCps({ 0xA0 }), true },
+        { "body_space_x_space", u" x "_qs, true }, { "body_empty", u""_qs, true }, { "body_absent", QString(), false } };
+    for (auto &c : cases) {
+        QXmppMessage m; m.setId(u"i"_qs); if (c.setIt) m.setBody(c.body);
+        QByteArray xml; bool parsed; QXmppMessage r = viaXml(m, xml, parsed);
+        bool same = parsed && r.body() == m.body();
+        stat(std::string("measure.message.") + c.name + (same ? ".roundtrips" : parsed ? ".value_changed" : ".document_unparseable"));
+        printf("X measure QXmppMessage %s: set=%s wrote=%s reparsed=%s body-after=%s\n", c.name, c.setIt ? show(c.body).c_str() : "(not set)",
+               xml.toPercentEncoding(" <>&;#\"=/':").constData(), parsed ? "yes" : "NO", parsed ? show(r.body()).c_str() : "-");
+    }
+    {   // subject: empty vs absent
+        QXmppMessage a, b; a.setId(u"i"_qs); b.setId(u"i"_qs); a.setSubject(u""_qs);
+        QByteArray xa, xb; bool pa, pb; QXmppMessage ra = viaXml(a, xa, pa), rb = viaXml(b, xb, pb);
+        stat(std::string("measure.message.subject_empty_vs_absent.") + (xa == xb ? "same_bytes" : "different_bytes"));
+        printf("X measure QXmppMessage subject \"\" wrote=%s ; absent wrote=%s ; subject-after=%s / %s\n", xa.constData(), xb.constData(), show(ra.subject()).c_str(), show(rb.subject()).c_str());
+    }
+    {   // names are written verbatim: a tag name that is not an XML name gives an unparseable document
+        QXmppElement e; e.setTagName(u"a b"_qs); e.setAttribute(u"k=\"1\" j"_qs, u"v"_qs);
+        QByteArray b; { QXmlStreamWriter w(&b); e.toXml(&w); }
+        stat(std::string("measure.element.invalid_name.") + (skelOfXml(b) == "none" ? "document_unparseable" : "parses_with_other_structure"));
+        printf("X measure QXmppElement tagName 'a b', attribute name 'k=\"1\" j': wrote=%s read-as=%s\n", b.constData(), skelOfXml(b).c_str());
+    }
+}
+
+// ------------------------------------------------------------------ the canonical encoding itself: Lean `canon` against vh::canonElement
+// on DOM trees built through the DOM API (no parser involved): adjacent text nodes, empty text nodes, attribute order
+static QDomElement buildDom(QDomDocument &doc, const Nd &n) {
+    QDomElement e = doc.createElement(n.name);
+    for (auto &kv : n.attrs) e.setAttribute(kv.first, kv.second);
+    for (auto &k : n.kids) { if (k.text) e.appendChild(doc.createTextNode(k.txt)); else e.appendChild(buildDom(doc, k)); }
+    return e;
+}
+static void runCanon(Rng &r) {
+    std::function<Nd(int)> gen = [&](int depth) {
+        Nd n; n.name = QString::fromLatin1(pick(r, ENAMES));
+        QStringList used; int na = r.below(4);
+        for (int i = 0; i < na; i++) { QString k = QString::fromLatin1(pick(r, ANAMES)); if (used.contains(k)) continue; used << k; n.attrs.emplace_back(k, genStr(r).left(40)); }
+        int nk = depth >= 3 ? r.below(2) : r.below(5);
+        for (int i = 0; i < nk; i++) { if (r.coin()) { Nd t; t.text = true; t.txt = r.below(3) == 0 ? QString() : genStr(r).left(40); n.kids.push_back(t); } else n.kids.push_back(gen(depth + 1)); }
+        return n; };
+    Nd root = gen(0);
+    QDomDocument doc; QDomElement e = buildDom(doc, root); doc.appendChild(e);
+    corr("xml-canon " + encRaw(root), canonElement(e));
+    stat("canon.total");
+}
+
 int main(int argc, char **argv) {
     QCoreApplication appl(argc, argv);
     Args args = parseArgs(argc, argv);
@@ -447,6 +530,7 @@ int main(int argc, char **argv) {
     // 0. corpus: the witness of the repaired finding C01:markup-injection:xmlns (repo 04d18dd) on qxmpp's own serializers:
     //    zero injected elements, namespace value preserved
     replayXmlnsFinding();
+    measureMessageFields();
 
     // 1. fixed strings first: every adversarial fragment, every blank / boundary character alone and between letters
     std::vector<QString> fixed = { QString(), u" "_qs, u"\r"_qs, u"\r\n"_qs, u"\t"_qs, u"x\ry\r\nz\tq\nw"_qs, u"  x  "_qs };
@@ -484,6 +568,18 @@ int main(int argc, char **argv) {
     // every code point up to U+2FFF and around the plane boundaries once through the escapers
     for (uint c = 0; c <= 0x2FFF; c++) { if (c >= 0xD800 && c <= 0xDFFF) continue; QString s = fromCps({ c }); bool ok; stat("str.codepoint.total");
         corr("xml-esc-text " + hexOf(s), hexB(realEscText(s, ok))); corr("xml-esc-attr " + hexOf(s), hexB(realEscAttr(s, ok))); }
+    // which code points survive writer + QDom: all up to U+2FFF, the surrogate/non-character/plane borders, a stride through the rest
+    {
+        std::vector<uint> cs; for (uint c = 0; c <= 0x2FFF; c++) cs.push_back(c);
+        for (uint c = 0xD7F0; c <= 0xD7FF; c++) cs.push_back(c);
+        for (uint c = 0xE000; c <= 0xE00F; c++) cs.push_back(c);
+        for (uint c = 0xFDC0; c <= 0x1000F; c++) cs.push_back(c);
+        for (uint p = 1; p <= 16; p++) for (uint c = p * 0x10000 + 0xFFF0; c <= p * 0x10000 + 0xFFFF; c++) cs.push_back(c);
+        uint stride = thorough ? 7 : 257;
+        for (uint c = 0x3000; c <= 0x10FFFF; c += stride) cs.push_back(c);
+        for (uint c : cs) if (!(c >= 0xD800 && c <= 0xDFFF)) sweepCodePoint(c);
+    }
+    for (int i = 0; i < (thorough ? 5000 : 500); i++) runCanon(rng);
     // 2. random strings
     int nStr = thorough ? 40000 : 3000;
     for (int i = 0; i < nStr; i++) { QString s = genStr(rng); strStats(s, "random"); runString(s, idx++, true); }
